@@ -323,8 +323,10 @@ CONTRACTS = CONTRACTS + [dict(
     params={"latter_map": "dict", "threshold": "int", "verbose": "false"},
     requires={"short-lists": "lm_small(latter_map)", "every-key-is-listed-once": "lm_indexed(latter_map, pos0)",
               "S-is-closed-in-the-input": "lm_sclosed(latter_map, S, threshold)"},
-    returns="dict",
+    returns="dict", ghost_returns={"posR": "arr"},
     ensures={"sub-map": "lm_sub(result, old(latter_map))",
+             # the insertion order of the result lists exactly its keys, each once (posR: the position of each key - an existential witness for callers)
+             "every-key-of-the-result-is-listed-once": "lm_indexed(result, posR)",
              "closed": "lm_closed(result, threshold)",
              # ... and it contains every closed vertex set of the input: it is the LARGEST closed sub-map
              "contains-every-closed-subset": "lm_sclosed(result, S, threshold)"},
@@ -332,13 +334,13 @@ CONTRACTS = CONTRACTS + [dict(
     # refutation: the real function on small latter maps (complete, and with a key removed so that some successors dangle), thresholds 0..4
     concrete_inputs="[dict(latter_map=m_, threshold=t_, verbose=False, pos0={a_: i_ for i_, a_ in enumerate(m_)}, S=s_) for m_ in small_latter_maps() for t_ in (0, 1, 2, 3, 4) for s_ in closed_sets(m_, t_)]",
     partial_correctness_loops=(1,),
-    ghost={"entry": "posD = pos0\nposN = pos0",
+    ghost={"entry": "posD = pos0\nposN = pos0\nposR = pos0",
            "before_loop3": "posN = pos0",
            "loop3_begin": "if former_vertex not in remove_vertices:\n    posN = aupd(posN, former_vertex, len(order(new_latter_map)))",
            # a list of the map has at most four entries: the position read is split into its four cases
            "loop4_begin": "if _i == 0:\n    pass\nelif _i == 1:\n    pass\nelif _i == 2:\n    pass\nelse:\n    pass\n"
                           "assert lmemb(latter_map, former_vertex, latter_vertex), 'the-entry-read-is-an-entry'",
-           "after_assign:latter_map": "posD = posN"},
+           "after_assign:latter_map": "posD = posN\nposR = posN"},
     loops={1: dict(binds="True", invariant={"sub-map": "lm_sub(latter_map, old(latter_map))",
                                             "indexed": "lm_indexed(latter_map, posD)",
                                             "S-still-closed": "lm_sclosed(latter_map, S, threshold)"}),
@@ -387,4 +389,30 @@ CONTRACTS = CONTRACTS + [dict(
         "rows-so-far": "lm_written(accessor, latter_map, observed_length, pos0, _i)"})},
     concrete_inputs="[dict(latter_map=m_, observed_length=k_, threshold=None, verbose=False, pos0={a_: i_ for i_, a_ in enumerate(m_)}) "
                     "for k_ in (1, 2) for m_ in scrambled_latter_maps(k_)]",
+)]
+
+
+# ------------------------------------------------------------------------------------------------------------------ C03: latter_map_to_accessor with a threshold
+CONTRACTS = CONTRACTS + [dict(
+    name="dsw.graphized.latter_map_to_accessor#threshold", function="dsw.graphized.latter_map_to_accessor", variant_of="dsw.graphized.latter_map_to_accessor",
+    n_loops=2,
+    # trimming (remove_useless, used by its contract) followed by the conversion: the accessor written is the accessor of the LARGEST CLOSED SUB-MAP
+    # (`trimmed`, an existential witness): a sub-map of the input, closed for the threshold, containing every vertex set S closed in the input
+    ghost_params={"pos0": "arr", "S": "arr"}, ghost_returns={"trimmed": "dict"},
+    params={"latter_map": "dict", "observed_length": "nat", "threshold": "int", "verbose": "false"},
+    requires={"order": "observed_length >= 1", "short-lists": "lm_small(latter_map)", "every-key-is-listed-once": "lm_indexed(latter_map, pos0)",
+              "lists-hold-shift-successors": "lm_shift(latter_map, observed_length)",
+              "S-is-closed-in-the-input": "lm_sclosed(latter_map, S, threshold)"},
+    returns="mat(ipow(4, observed_length), 4)",
+    ensures={"shape": "len(result) == ipow(4, observed_length) and len(result[0]) == 4",
+             "accessor-of-the-trimmed-map": "lm_written(result, trimmed, observed_length)",
+             "trimmed-is-the-largest-closed-sub-map": "lm_sub(trimmed, old(latter_map)) and lm_closed(trimmed, threshold) and lm_sclosed(trimmed, S, threshold)"},
+    raises={},
+    ghost={"entry": "ipow_mono(4, 0, observed_length)\ntrimmed = latter_map",
+           "after_assign:latter_map": "trimmed = latter_map\nassert lm_shift(latter_map, observed_length), 'trimmed-lists-hold-shift-successors'",
+           "loop1_begin": "assert haskey(latter_map, former_vertex) and remove_useless_posR[former_vertex] == _i, 'listed-key'\n"
+                          "if len(latter_vertices) == 0:\n    pass\nelif len(latter_vertices) == 1:\n    pass\nelif len(latter_vertices) == 2:\n    pass\n"
+                          "elif len(latter_vertices) == 3:\n    pass\nelse:\n    pass\n"},
+    loops={1: dict(binds="enumerate(latter_map.items())", invariant={
+        "rows-so-far": "lm_written(accessor, latter_map, observed_length, remove_useless_posR, _i)"})},
 )]
